@@ -26,9 +26,11 @@ const (
 	kGC
 	kDrop
 	kReset
+	kAssign    // the program itself assigns another real implementation to X
+	kAssignNil // the program itself assigns nil to X
 )
 
-var kindNames = []string{"Apply", "As.Return", "As.When(7).Return", "GC", "DropBuilder", "Reset"}
+var kindNames = []string{"Apply", "As.Return", "As.When(7).Return", "GC", "DropBuilder", "Reset", "X=other", "X=nil"}
 
 // Op is one operation.
 type Op struct {
@@ -74,6 +76,13 @@ type varModel struct {
 	methods map[string]mockInfo
 	pre     [2]uintptr
 	dirty   bool
+	// foreign assignment (X only): held = what the program assigned ("" none, "X2", "nil");
+	// displaced = the assignment overwrote a live mock; fresh = methods mocked since then (only
+	// those are judged: whether the earlier ones survive a foreign assignment is not stated)
+	held      string
+	displaced bool
+	partial   bool
+	fresh     map[string]bool
 }
 
 var sink [][]byte
@@ -102,6 +111,8 @@ func ptrOf(v string) interface{} {
 		return &t.W
 	case "V":
 		return &t.V
+	case "L1", "L2":
+		return t.Ptr(v)
 	}
 	panic("bad var")
 }
@@ -149,6 +160,10 @@ func run(real bool, ops []Op, vars []string) (fail string, judged, unjudged int)
 				b = mocker.Create()
 			case kReset:
 				b.Reset()
+			case kAssign:
+				t.Assign(false)
+			case kAssignNil:
+				t.Assign(true)
 			}
 		})
 		if p {
@@ -167,6 +182,19 @@ func run(real bool, ops []Op, vars []string) (fail string, judged, unjudged int)
 				}
 				vm.mocked, vm.owner = true, epoch
 				vm.methods = map[string]mockInfo{}
+				vm.partial, vm.displaced = false, false
+			}
+			if prev, had := vm.methods[op.M]; vm.displaced && had && prev.how != kApply && op.K != kApply {
+				// extending an existing stub's results is not a new act of mocking: whether it puts the
+				// mock back into a variable the program has overwritten is not stated
+				vm.dirty = true
+			}
+			if vm.displaced {
+				// mocked again after the program overwrote the mock: the variable holds the mock again
+				vm.displaced, vm.partial, vm.fresh = false, true, map[string]bool{}
+			}
+			if vm.partial {
+				vm.fresh[op.M] = true
 			}
 			mi, had := vm.methods[op.M]
 			switch op.K {
@@ -186,12 +214,26 @@ func run(real bool, ops []Op, vars []string) (fail string, judged, unjudged int)
 			vm.methods[op.M] = mi
 		case kDrop:
 			epoch++
+		case kAssign, kAssignNil:
+			vm := model["X"]
+			vm.held = map[int]string{kAssign: "X2", kAssignNil: "nil"}[op.K]
+			if vm.mocked {
+				vm.displaced = true
+			} else {
+				initial["X"] = t.Words("X")
+			}
 		case kReset:
 			for _, v := range vars {
 				vm := model[v]
 				if vm.mocked && vm.owner == epoch {
 					vm.mocked = false
 					vm.methods = map[string]mockInfo{}
+					if vm.partial || vm.displaced {
+						// the program assigned to the variable while it was mocked: what Reset puts back is not stated
+						vm.dirty = true
+						unjudged++
+						continue
+					}
 					// the variable must hold its pre-mock words again
 					judged++
 					if w := t.Words(v); w != vm.pre && fail == "" {
@@ -216,7 +258,13 @@ func run(real bool, ops []Op, vars []string) (fail string, judged, unjudged int)
 			unjudged += 2 * len(t.Methods[v])
 			continue
 		}
-		if vm.mocked {
+		if vm.mocked && vm.displaced {
+			// the program's own assignment is what the variable holds now
+			judged++
+			if w := t.IsNil(v); w != (vm.held == "nil") {
+				return fmt.Sprintf("assign: variable %s does not hold what the program assigned (%s) after the mock", v, vm.held), judged, unjudged
+			}
+		} else if vm.mocked {
 			judged++
 			if t.IsNil(v) {
 				return fmt.Sprintf("nil: variable %s is nil although a method of it is mocked", v), judged, unjudged
@@ -235,10 +283,19 @@ func run(real bool, ops []Op, vars []string) (fail string, judged, unjudged int)
 				judged++
 				want, wantPanic := 0, ""
 				switch {
-				case !vm.mocked && !real:
+				case (!vm.mocked || vm.displaced) && vm.held == "X2":
+					want = t.RealResult("X2", m, a)
+				case (!vm.mocked || vm.displaced) && (vm.held == "nil" || !real):
 					wantPanic = "nil pointer"
-				case !vm.mocked:
+				case !vm.mocked || vm.displaced:
 					want = t.RealResult(v, m, a)
+				case vm.partial && !vm.fresh[m]:
+					if _, earlier := vm.methods[m]; earlier {
+						unjudged++
+						judged--
+						continue
+					}
+					wantPanic = "method not implements"
 				default:
 					mi, ok := vm.methods[m]
 					switch {
@@ -302,7 +359,14 @@ func wellFormed(ops []Op) bool {
 			clause = map[key]bool{}
 		}
 	}
-	return true
+	// at most one foreign assignment per history, and not as the last operation before nothing happens
+	na := 0
+	for _, o := range ops {
+		if o.K >= kAssign {
+			na++
+		}
+	}
+	return na <= 1
 }
 
 // mockWide mocks the 9-integer-word methods of V: the callback / the When condition sees every
@@ -387,8 +451,13 @@ func alphabet(thorough bool) ([]Op, []string) {
 	if thorough {
 		a = append(a, Op{K: kApply, V: "V", M: "Sum8"}, Op{K: kApply, V: "V", M: "Join"}, Op{K: kAsReturn, V: "V", M: "Join"})
 	}
-	vars = append(vars, "V")
-	a = append(a, Op{K: kGC}, Op{K: kDrop}, Op{K: kReset})
+	vars = append(vars, "V", "L1", "L2")
+	// two function-local interface types of the same printed name, common method at different positions
+	a = append(a, Op{K: kApply, V: "L1", M: "Get"}, Op{K: kApply, V: "L2", M: "Get"})
+	if thorough {
+		a = append(a, Op{K: kAsReturn, V: "L1", M: "Aaa"}, Op{K: kAsReturn, V: "L2", M: "Zzz"})
+	}
+	a = append(a, Op{K: kGC}, Op{K: kDrop}, Op{K: kReset}, Op{K: kAssign}, Op{K: kAssignNil})
 	return a, vars
 }
 
